@@ -1,5 +1,5 @@
 #!/bin/bash
-# usage: mutbatch.sh "<C02:m1 C02:m3 ...>" [budget]   -> appends summaries to /tmp/mut/results.txt
+# usage: mutbatch.sh "<C02:m1 C02:m3 ...>" [budget]   -> appends summaries to ${RESULTS:-/tmp/mut/results.txt}
 budget=${2:-25}
 for item in $1; do
   prop=${item%%:*}; m=${item##*:}
@@ -12,6 +12,6 @@ except Exception as e:
 print('$item','confirmed=',o.get('confirmed'),{k:o.get(k) for k in ('builds','suite_passes_with_patch','demo_fails_with_patch','demo_passes_without_patch')},{k:(v['caught'],v['exit']) for k,v in o['checks'].items()})
 for k,v in o['checks'].items():
     for l in v['lines'][:3]: print('   ',l[:400])
-" >> /tmp/mut/results.txt
+" >> ${RESULTS:-/tmp/mut/results.txt}
 done
-echo "BATCH DONE $1" >> /tmp/mut/results.txt
+echo "BATCH DONE $1" >> ${RESULTS:-/tmp/mut/results.txt}
